@@ -18,10 +18,23 @@ UNITS = {
               cuts=SSO['cuts'] + ['^_ZNKSt6vectorINSt7__cxx1112basic_stringIcSt11char_traitsIcESaIcEEESaIS5_EE12_M_check_lenEmPKc$', '^_ZNKSt6vectorIcSaIcEE12_M_check_lenEmPKc$',
                                   '^_ZNSt12_Vector_baseINSt7__cxx1112basic_stringIcSt11char_traitsIcESaIcEEESaIS5_EE1[13]_M_(de)?allocateE', '^_ZNSt12_Vector_baseIcSaIcEE1[13]_M_(de)?allocateE']),
 }
-BOUNDS = ''
-STUBS = []
-OUTSIDE = []
-ASSUMPTIONS = []
+BOUNDS = ('every input string has a concrete length per query (case split): split / split_context / split_args 0..3 bytes quick, 0..5 / 0..4 / 0..5 thorough; '
+          'join 0..3 items of 0..2 bytes (4 items thorough); strip_* 0..4 (0..6); starts/ends_with strings 0..3 x prefixes 0..2 (0..4 x 0..3); toupper/tolower/skip_* 0..3 (0..5); '
+          'str_replace_all strings 0..3 (0..4), target 1..2, replacement 0..2 bytes; string_printf results 0..3 (0..8) bytes. Bytes range over all 256 values, delimiters over all 256 values, '
+          'max_splits over [0, len+1], flags symbolic. Every std::string <= 15 bytes in the P and R encodings.')
+STUBS = ['vasprintf (h_printf.c): CONTRACT stub - returns LEN symbolic bytes in a malloc buffer, or NULL/-1; string_printf itself is only checked as the wrapper around it',
+         'std::string::_M_create cut to a reported bound failure (sso_bound.c): strings longer than 15 bytes are outside the P and R encodings',
+         'operator new/delete: deterministic pool allocator of engine/rt/rt_model.c (VERIF_NEW_POOL) - no use-after-delete detection in CBMC (ASan still checks the native replay)',
+         'std::allocator<char> ctors/dtor as no-ops (sso_bound.c)',
+         'R unit only (split_context, split_args): std::vector growth policy and storage replaced by the reserve-ahead model vec_reserve.c (first growth reserves 8 elements in a static block, second growth = bound failure); '
+         '_M_realloc_insert/emplace_back/push_back/pop_back themselves are the real code',
+         'libc ctype/mem/str functions: C-locale models in engine/rt/rt_model.c (toupper, tolower, isblank, memchr, memcmp, strlen)']
+OUTSIDE = ['strings longer than the stated lengths (the property text quantifies up to 4 KiB / 1 MiB): measured wall - split 5 bytes ~2-4 min, split_args 3 bytes 150 s, split_context 2 bytes 37 s',
+           'the std::wstring overload of split (identical template text, instantiation not encoded)',
+           'the formatting done by vasprintf itself (string_printf is a thin wrapper; 1 MiB results)',
+           'split_args: an empty quoted region alone ("") produces no argument, unlike POSIX sh; the reference follows phosg here (not demanded by the property text), see NOTES.md',
+           'exact (unmodelled-growth, CBMC-malloc) encoding beyond split on 2 bytes: no verdict within 14 GB']
+ASSUMPTIONS = ['references to vector elements are not kept across push_back by the code under test (reserve-ahead vector model, R unit)']
 FS = ['--max-field-sensitivity-array-size', '256']
 
 
